@@ -797,6 +797,9 @@ def ev(ctx, fr, e):
         sl = ops.comprehension(ctx, fr, e)
         if t is ast.SetComp:
             return ops.make_set(ctx, fr, sl)
+        if t is ast.GeneratorExp:
+            from vf.e1.vals import SGen
+            return SGen(sl)
         return sl
     if t is ast.DictComp:
         return ops.dict_comprehension(ctx, fr, e)
